@@ -573,6 +573,9 @@ def describe(plan):
 MINIMISE_KW = {"protect": ("op", "engine", "backend", "suffix", "idclass", "dir_order", "id", "data", "mode"),
                "list_keys": ("ops",), "budget_s": 30.0, "max_tries": 200}
 
+# the first N runs are repeated in interpreters with another PYTHONHASHSEED
+CROSS_HASHSEED = 400
+
 EVIDENCE = {
     "rule": (
         "history = 3-12 (quick) / 3-30 (thorough) store operations over a pool of 3-6 identifiers whose stems are "
